@@ -31,6 +31,9 @@ FORMS = [  # name, named, nparams, probes per parameter (numeric differentiation
     ("[w b]∂gn", True, 2, 5, "[w b]∂gn", "gn()"),
     ("[w w]∂gn", True, 2, 5, "[w w]∂gn", "gn()"),
     (".jacobian", False, 1, 5, ".jacobian(g;a)", "g(a)"),
+    # a parameter list that names a FUNCTION: the operator fails (or not), the function must stay what it was
+    ("[w hf]∂gn", True, 2, 5, "[w hf]∂gn", "hf(3)"),
+    ("loss:>[w hf]", True, 2, 4, "loss:>[w hf]", "hf(3)"),
 ]
 FAULT = {"raise": "boom(0)", "nonscalar": "[1.0 2.0 3.0]", "unknown": "nofn(1)", "none": "0"}
 SCALAR_FORMS = {"f:>p", "f:>a", "p∇f", "a∇f", "loss:>[w b]", "loss:>[b w]", "loss:>[w b w]", "loss:>[w w]"}
@@ -60,7 +63,7 @@ def describe(v):
     if isinstance(v, (int, float, np.integer, np.floating)):
         return f"{tname}:{float(v)!r}"
     if type(v).__name__ in ("KGFn", "KGCall", "KGLambda", "KGFnWrapper"):
-        return "function"
+        return f"function:{type(v).__name__}:arity={getattr(v, 'arity', '?')}"
     return f"{tname}:{v!r}"[:200]
 
 
@@ -86,7 +89,7 @@ def setup(backend, kind):
     k["pr"] = pr
     k["boom"] = boom
     tail = f":[pr(0);{FAULT[kind]};0]"
-    for src in ["w::[1.0 2.0]", "b::0.5", "a::[1.5 2.5]", "u::[7 8 9]", "s::3",
+    for src in ["hf::{x+1}", "w::[1.0 2.0]", "b::0.5", "a::[1.5 2.5]", "u::[7 8 9]", "s::3",
                 f"f::{{(+/x*x)+{tail}}}", f"g::{{(x*x)+{tail}}}", f"loss::{{(+/w*w)+(b*b)+{tail}}}", f"gn::{{(w*b)+{tail}}}"]:
         k(src)
     return k, pr
@@ -188,7 +191,7 @@ def run(tier, seed):
     ev.cov["distinct_nontrivial"] = fired
     ev.cov["scenarios"] = len(scen)
     ev.cov["scenarios_whose_fault_fired"] = fired
-    ev.cov["rule"] = ("every scenario of GradPurity.tla: 13 gradient forms (point, variable and symbol points; Jacobians; multi-parameter with "
+    ev.cov["rule"] = ("every scenario of GradPurity.tla: 15 gradient forms (point, variable and symbol points; Jacobians; multi-parameter with "
                       "distinct, reordered and repeated symbols) x fault position k = 0..8 x fault kind (raise, non-scalar result, unknown "
                       "name), replayed under numpy and torch; non-trivial = the k-th evaluation was reached and failed")
     ev.sample({"scenario": meta[0][0], "backend": meta[0][1], "pre": traces[0]["pre"]})
